@@ -7,6 +7,7 @@ import os
 from . import frames as F, sim as S
 
 JUNK_ADDR = ("6.6.6.6", 666)
+CLIENT_ADDR3 = ("1.2.3.77", 7777)     # a third client-side address: never challenged unless the server chooses to
 
 
 class Store:
@@ -187,7 +188,14 @@ def run_scenario(seed, mode, steps=150, extra=()):
         sim.transmit(sim.server)
     for i in range(steps):
         x = r.random()
-        if x < 0.06:
+        if mode == "migration" and x < 0.10 and any(d["dst"] is sim.server for d in sim.pending):
+            # a genuine client datagram (possibly carrying a PATH_RESPONSE) reaches the server from a
+            # third address: neither the handshake address nor the one the server challenged
+            i = [k for k, d in enumerate(sim.pending) if d["dst"] is sim.server][0]
+            d = sim.pending.pop(i)
+            sim.now += 0.001
+            sim.deliver(d, r.choice([CLIENT_ADDR3, CLIENT_ADDR3, JUNK_ADDR]))
+        elif x < 0.06:
             junk(sim, sim.server, r.choice([S.CLIENT_ADDR, sim.client.addr, JUNK_ADDR]), r.choice([1, 33, 100, 250, 700, 1200]))
         elif x < 0.075 and not sim.client.terminated:
             # a spoofed-source Initial: correctly protected (Initial keys are public), sent from a third address
@@ -246,6 +254,35 @@ def directed(seed, kind, extra=()):
         if r.random() < 0.7:
             sim.fire_timer(sim.client)                    # PTO before the answer arrives
         settle(sim, r.choice([30, 300]))
+        return sim, orc
+    if kind == "three_addresses":
+        # the client moves to address B, the server challenges B with a large stream queued; the
+        # client's answers (PATH_RESPONSE included) then arrive from a third address C
+        sim = make_sim(seed, orc, extra=extra)
+        sim.handshake()
+        sim.api(sim.server, "send_stream_data", 1, bytes(r.choice([30000, 100000])))
+        if r.random() < 0.5:
+            sim.transmit(sim.server)
+        sim.client.addr = S.CLIENT_ADDR2
+        sim.api(sim.client, "send_ping", 7)
+        sim.transmit(sim.client)
+        third = r.choice([CLIENT_ADDR3, CLIENT_ADDR3, JUNK_ADDR])
+        switch_after = r.choice([1, 1, 2])      # client datagrams still delivered from B before C shows up
+        n_from_client = 0
+        for _ in range(r.choice([25, 60])):
+            if not sim.pending:
+                from .ack_scen import advance
+                advance(sim, 0.03)
+                if not sim.pending:
+                    break
+                continue
+            d = sim.pending.pop(0)
+            sim.now += 0.001
+            if d["dst"] is sim.server:
+                n_from_client += 1
+                sim.deliver(d, S.CLIENT_ADDR2 if n_from_client <= switch_after else third)
+            elif r.random() < 0.9:
+                sim.deliver(d)
         return sim, orc
     if kind == "ping_full_window":
         # the window is full of stream data; the application asks for PINGs: they must wait
